@@ -208,6 +208,24 @@ func cmdCheck(argv []string) int {
 	if *timeoutS > 0 {
 		cfg.timeout = time.Duration(*timeoutS) * time.Second
 	}
+	// obligations recorded as open known findings are expected to fail: one short attempt only (quick tier)
+	if tier == "quick" {
+		var kf []knownFinding
+		if data, err := os.ReadFile(filepath.Join(verifDir(), "known_findings.json")); err == nil {
+			json.Unmarshal(data, &kf)
+		}
+		for _, k := range kf {
+			if k.Property == prop && k.Status == "open" {
+				for _, u := range units {
+					for _, o := range u.obls {
+						if o.Name == k.Obligation {
+							o.Short = true
+						}
+					}
+				}
+			}
+		}
+	}
 	tSolve := time.Now()
 	dischargeAll(units, cfg, runtime.NumCPU())
 	solveS := time.Since(tSolve).Seconds()
